@@ -228,9 +228,9 @@ class NCElement:
         return self.__root
 
 def parent_ns(node):
-    if node.prefix:
-        return node.nsmap[node.prefix]
-    return None
+    # also when the parent's namespace is the un-prefixed default one: a child
+    # created without it would be read back into that namespace anyway
+    return etree.QName(node).namespace
 
 def yang_action(name, attrs):
     """Instantiate a YANG action element
